@@ -129,11 +129,11 @@ Proof.
   assert (Hb := Hd). split_dom Hb D2 D1 D0 D.
   unfold bounds_ok in Hb. apply andb_true_iff in Hb as [B1 B2].
   apply Nat.leb_le in B1, B2.
-  assert (not_test_not (c_test c) = true /\ (c_from_end c = false \/ test_symmetric (c_test c) = true)) as [Htn Hsy].
-  { destruct (c_fn c); try discriminate Hf; cbn in D; apply andb_true_iff in D as [Da Db]; split; auto;
-      apply orb_true_iff in Db as [Db|Db]; auto; left; now apply negb_true_iff in Db. }
+  assert (c_from_end c = false \/ test_symmetric (c_test c) = true) as Hsy.
+  { destruct (c_fn c); try discriminate Hf; cbn in D;
+      apply orb_true_iff in D as [Db|Db]; auto; left; now apply negb_true_iff in Db. }
   assert (no_count (c_fn c) = true) as Hnc by (destruct (c_fn c); try discriminate; reflexivity).
-  pose proof (parse_sfv_scan c Hnc D0 Htn) as Hp.
+  pose proof (parse_sfv_scan c Hnc D0) as Hp.
   assert (m_dups c (mkSfv (s_start c) (c_end c) None (c_from_end c)) =
           RSeq (firstn (s_start c) (elems (c_seq c)) ++
                 (if c_from_end c then dedup_earlier (c_test c) (c_key c) [] (slice (s_start c) (s_end c (elems (c_seq c))) (elems (c_seq c)))
